@@ -157,3 +157,105 @@ def deliveries(pa, method: str):
             recv = callee.self_val if isinstance(callee, Fn) else (callee.args[0] if isinstance(callee, Term) and callee.op == "attr" else None)
             out.append((show(recv) if recv is not None else "?", e.data["args"][0] if e.data["args"] else None, e))
     return out
+
+
+def check_reentrant(ctx, rule, side):
+    """Registration changes made from inside a delivery (a client that notices its connection is dead while it is being
+    written to and unregisters; a hub device that registers its sub-devices when it is connected).  Three peers p0..p2 are
+    registered and all entitled to the message; while p<k> is being served it removes p<j> (every k, j) or registers a new
+    peer.  Required: every peer that is registered when its turn comes is served exactly once - nobody is skipped or served
+    twice because the table changed under the dispatch loop - and a peer removed before its turn is not served."""
+    import ast
+    from ..absint import Frame
+    p = ctx.p
+    rc = router_cls(p)
+    f = rc.find_method("process_message")
+    is_dev = side == "device"
+    table = "devices" if is_dev else "clients"
+    deliver = "message_from_client" if is_dev else "message_from_device"
+    mcls = p.cls("indi.message.get_properties.GetProperties" if is_dev else "indi.message.del_property.DelProperty")
+    N = 3
+    bad = False
+    n = 0
+    for k in range(N):
+        for j in list(range(N)) + ["new-first", "new-last"]:
+            n += 1
+
+            def effect(it, callee, args, kwargs, ev, k=k, j=j):
+                if not isinstance(callee, Fn):
+                    return None
+                me = callee.self_val
+                if callee.fi.name == "accepts":
+                    return Const(True)
+                if callee.fi.name == deliver and isinstance(me, Obj):
+                    it.served.append(me.label)
+                    peers = it.world.devices if is_dev else it.world.clients
+                    if me is peers[k] and not it.done:
+                        it.done = True
+                        nev = len(it.events)
+                        saved = dict(it.opts)
+                        it.opts["inline"] = lambda fi, node: fi.cls is rc
+                        try:
+                            if isinstance(j, int):
+                                if is_dev:
+                                    # the router has no unregister_device: a device leaves through the public table
+                                    it.exec_block(ast.parse("r.devices.remove(d)").body, Frame(None, rc.module, {"r": it.world.router, "d": peers[j]}))
+                                else:
+                                    it.run_function(Fn(rc.find_method("unregister_client"), it.world.router), [peers[j]], {})
+                            else:
+                                it.run_function(Fn(rc.find_method("register_device" if is_dev else "register_client"), it.world.router), [it.newcomer], {})
+                        finally:
+                            it.opts.clear()
+                            it.opts.update(saved)
+                        del it.events[nev:]
+                    return Const(None)
+                return None
+
+            def run(it: Interp):
+                global _CURRENT_IT
+                _CURRENT_IT = it
+                try:
+                    w = World(p, N if not is_dev else 1, N if is_dev else 0, {})
+                finally:
+                    _CURRENT_IT = None
+                it.world = w
+                it.served = []
+                it.done = False
+                it.newcomer = Obj(w.dbase if is_dev else w.cbase, {}, label="newcomer")
+                m = message_obj(p, mcls, device=None if is_dev else "A")
+                del it.events[:]
+                return it.run_function(Fn(f, w.router), [m, Const(None)], {})
+
+            paths = explore(p, run, {"inline": lambda fi, node: fi.cls is rc and fi is not f, "call_effect": effect, "strict_keys": True})
+            ctx.paths_enumerated += len(paths)
+            what = f"removes {side}{j}" + (" (itself)" if j == k else "") if isinstance(j, int) else "registers a new " + side
+            if len(paths) != 1 or paths[0].outcome != "return":
+                ctx.undecided(rule, f.short, f"dispatch during which {side}{k} {what} is not decided by constant evaluation ({len(paths)} paths)", fi=f)
+                bad = True
+                continue
+            served = paths[0].interp.served
+            core = [s for s in served if s != "newcomer"]
+            # independent of the order in which the table is walked: everybody but the removed peer exactly once; the
+            # removed peer not after the moment of its removal (it may have had its turn before)
+            others = [f"{side}{i}" for i in range(N) if not (isinstance(j, int) and i == j)]
+            miss = [x for x in others if x not in core]
+            twice = sorted({x for x in served if served.count(x) > 1})
+            extra = []
+            if isinstance(j, int):
+                gone, remover = f"{side}{j}", f"{side}{k}"
+                if j == k:
+                    if core.count(gone) != 1:
+                        miss = miss + ([gone] if gone not in core else [])
+                elif gone in core and remover in core and core.index(gone) > core.index(remover):
+                    extra = [gone]
+            want = others + ([f"{side}{j} only if served before {side}{k}"] if isinstance(j, int) and j != k else ([f"{side}{j}"] if isinstance(j, int) else []))
+            if miss or twice or extra:
+                why = "; ".join(filter(None, [f"{miss} registered and entitled but not served" if miss else "", f"{twice} served twice" if twice else "", f"{extra} served after its removal" if extra else ""]))
+                ctx.violated(rule, f.short, f"three {side}s entitled to a message; while {side}{k} is served it {what}: served {served}, expected {want}: {why} (the table changed under the dispatch loop)", fi=f, text=f"reentrant:{side}:" + ("skipped" if miss else "twice" if twice else "late"), witness=f"{side}{k} {what} inside its {deliver}()")
+                bad = True
+                break
+        if bad:
+            break
+    ctx.counters[rule + ":(served, changed) pairs"] = n
+    if not bad:
+        ctx.holds(rule, f.short, f"{n} (peer being served, registration change) pairs on the {side} side: everybody registered at its turn is served exactly once", fi=f)
